@@ -12,7 +12,7 @@ VF = parse_type("&Vec<f64>")
 
 def obligations(tier):
     obs = []
-    ks = (1, 2, 3, 4) if tier == "quick" else (1, 2, 3, 4, 5)
+    ks = (1, 2, 3, 4, 5) if tier == "quick" else (1, 2, 3, 4, 5, 6)
     for k in ks:
         for t in knot_families(k, tier):
             for m_ in range(0, k + 1):
@@ -115,7 +115,7 @@ def worker(ob):
             return out
         add_props(chk, props, replay)
         return chk
-    return explore_ob(harness, max_paths=5000, max_seconds=1200)
+    return explore_ob(harness, max_paths=5000, max_seconds=1200, max_decisions=20000, max_steps=5000000)
 
 
 def run(tier, seed):
@@ -126,9 +126,9 @@ def run(tier, seed):
     if tot["panics"]:
         tot["undecided"].append(f"panic leaves: {tot['panics'][:3]}")
     standard_finish(PID, ev, obs, results, tot, lambda f: {"site": "bspl", "k": f.get("ob", "")[:4]},
-                    bounds={"order": "k = 1..4 (quick) / 1..5 (thorough)", "knots": "k-fold end knots on [0,4] with interior knot families: none, one, two distinct, non-uniform (rational), repeated interior knots up to multiplicity k-1; thorough adds three-fold and symbolic a<b<c",
+                    bounds={"order": "k = 1..5 (quick) / 1..6 (thorough)", "knots": "k-fold end knots on [0,4] with interior knot families: none, one, two distinct, non-uniform (rational), repeated interior knots up to multiplicity k-1; thorough adds three-fold and symbolic a<b<c",
                             "x": "SYMBOLIC over the whole domain: every span, every interior knot and both end points are covered by the path forks on the comparisons", "derivatives": "every order 0..k for every basis index",
-                            "outside": "k = 6 (and 5 in the quick tier); fully symbolic knot vectors (z3 NRA stalls beyond 3 symbolic knots, DESIGN §2.4)"},
+                            "outside": "k > 6 (6 only in the thorough tier); fully symbolic knot vectors (z3 NRA stalls beyond 3 symbolic knots, DESIGN §2.4)"},
                     rule="obligation = (order, knot vector, derivative order); paths = position of x relative to the knots; per path one validity query: all basis functions equal the m-th derivative of the reference Cox-de Boor polynomial of the active span (exact rational polynomials computed independently), sum to one, non-negative, local support",
                     assumptions=["reals", "reference pieces computed with exact rational arithmetic in specs/spline_common.py"])
 
